@@ -494,11 +494,52 @@ Proof.
   destruct (slots_insert _ _); intro H; injection H as _ <-; eauto.
 Qed.
 
+(* the failure for ANY table that holds every even id of address 0 (32768 entries) *)
+Lemma fresh_fails_when_all_even_taken s :
+  d_inv s -> d_max_streams s = 32769 -> Z.of_nat (length (d_streams s)) = 32768 ->
+  (forall c, 0 <= c < 32768 -> In {| k_addr := 0; k_conn := 2 * c |} (keys (d_streams s))) ->
+  d_syns s = [] -> d_control s = [CtlConnect 0 0] -> d_next_conn_id s = 0 ->
+  c12_syn_fresh_ok (dobs_of s) (syn_keys (snd (dstep s (DoRunOnce [] (ArmControl SynSent))))) = false.
+Proof.
+  intros Hinv Hmax Hlen Hall Hsyns Hctl Hnext.
+  assert (Hcands : forall i, has_stream s {| k_addr := 0; k_conn := cand 0 i |} = true).
+  { intro i. apply in_keys_has_stream. unfold cand. destruct i as [|i].
+    - apply (Hall 0). lia.
+    - replace ((0 + 2 * Z.of_nat (S i)) mod M16) with (2 * (Z.of_nat (S i) mod 32768)) by (unfold M16; lia).
+      apply Hall. lia. }
+  assert (Hnf : next_free_conn_id (S (length (d_streams s))) s 0 0 = 2).
+  { destruct (next_free_spec (S (length (d_streams s))) s 0 0) as (j & Hj & Hr & _ & Hstop).
+    rewrite Hr. destruct (Nat.eq_dec j (S (length (d_streams s)))) as [->|Hne].
+    - unfold cand. rewrite Nat2Z.inj_succ, Hlen. reflexivity.
+    - rewrite Hcands in Hstop. assert (Hlt : (j < S (length (d_streams s)))%nat) by lia.
+      specialize (Hstop Hlt). discriminate. }
+  assert (Hfull : streams_full s = false) by (unfold streams_full; rewrite Hmax, Hlen; reflexivity).
+  rewrite dstep_run_once_eq, (cleanup_no_syns s Hsyns).
+  cbn [fold_left arm_step]. rewrite Hctl.
+  destruct (on_control (upd_control s []) (CtlConnect 0 0) SynSent) as [s3 e3] eqn:Eoc.
+  destruct (on_control_connect_syn (upd_control s []) _ _ _ _ Hfull Eoc) as (q & rest & ->).
+  cbn [d_streams d_next_conn_id upd_control]. rewrite Hnext.
+  assert (Hnf' : next_free_conn_id (S (length (d_streams s))) (upd_control s []) 0 0 = 2).
+  { rewrite <- Hnf. generalize (S (length (d_streams s))). intro fuel.
+    generalize 0 at 2 4. induction fuel as [|fuel IH]; intro c; cbn [next_free_conn_id]; [reflexivity|].
+    change (has_stream (upd_control s []) {| k_addr := 0; k_conn := c |})
+      with (has_stream s {| k_addr := 0; k_conn := c |}).
+    destruct (has_stream s _); [apply IH|reflexivity]. }
+  rewrite Hnf'. cbn [snd app syn_keys flat_map]. unfold c12_syn_fresh_ok. cbn [forallb].
+  apply andb_false_iff. left. apply negb_false_iff. apply existsb_exists.
+  pose proof (Hall 1 ltac:(lia)) as Hin. unfold keys in Hin. apply in_map_iff in Hin.
+  destruct Hin as (en & Hk & Hen). exists (se_key en, se_alive en). split.
+  - unfold dobs_of; cbn [ob_streams]. apply in_map_iff. exists en. auto.
+  - cbn [fst]. rewrite Hk. apply skey_eqb_refl.
+Qed.
+
+(* such a table, with max_active_streams = 32769 *)
 Definition wit_n : nat := Z.to_nat 32768.
 Definition wit_entry (i : nat) : sentry :=
   {| se_key := {| k_addr := 0; k_conn := 2 * Z.of_nat i |}; se_alive := true; se_id := Z.of_nat i |}.
+Definition wit_streams : list sentry := map wit_entry (seq 0 wit_n).
 Definition wit_state : dstate :=
-  {| d_streams := map wit_entry (seq 0 wit_n); d_connecting := []; d_syns := []; d_next_acc := None;
+  {| d_streams := wit_streams; d_connecting := []; d_syns := []; d_next_acc := None;
      d_chan := []; d_control := [CtlConnect 0 0]; d_next_conn_id := 0; d_max_streams := 32769;
      d_random := []; d_dead_acceptors := []; d_handed := []; d_next_sid := 32768;
      d_dead_connectors := []; d_results := [] |}.
@@ -506,44 +547,30 @@ Definition wit_state : dstate :=
 Lemma wit_n_Z : Z.of_nat wit_n = 32768.
 Proof. unfold wit_n. apply Z2Nat.id. lia. Qed.
 
-Lemma wit_length : length (d_streams wit_state) = wit_n.
-Proof. cbn [d_streams wit_state]. rewrite map_length, seq_length. reflexivity. Qed.
+Lemma wit_length : length wit_streams = wit_n.
+Proof. unfold wit_streams. rewrite map_length, seq_length. reflexivity. Qed.
 
-Lemma wit_keys c : 0 <= c < 32768 -> In {| k_addr := 0; k_conn := 2 * c |} (keys (d_streams wit_state)).
+Lemma wit_keys c : 0 <= c < 32768 -> In {| k_addr := 0; k_conn := 2 * c |} (keys wit_streams).
 Proof.
-  intro Hc. cbn [d_streams wit_state]. unfold keys. rewrite map_map. apply in_map_iff.
+  intro Hc. unfold keys, wit_streams. rewrite map_map. apply in_map_iff.
   exists (Z.to_nat c). split.
   - cbn [wit_entry se_key]. rewrite Z2Nat.id by lia. reflexivity.
   - apply in_seq. pose proof wit_n_Z. lia.
 Qed.
 
-Lemma wit_inv : d_inv wit_state.
+Lemma wit_nodup : NoDup (keys wit_streams).
 Proof.
-  unfold d_inv. rewrite wit_length, wit_n_Z.
-  cbn [d_streams d_max_streams d_syns d_chan d_connecting wit_state length].
-  unfold ACCEPT_QUEUE_MAX_SYNS, ACCEPT_QUEUE_MAX_ACCEPTORS.
-  split; [|split; [lia|split; [lia|split; [lia|constructor]]]].
-  unfold keys. rewrite map_map. apply NoDup_map_seq. intros i j _ Hij _ Heq.
+  unfold keys, wit_streams. rewrite map_map. apply NoDup_map_seq. intros i j _ Hij _ Heq.
   cbn [wit_entry se_key] in Heq. apply (f_equal k_conn) in Heq. cbn [k_conn] in Heq. lia.
 Qed.
 
-Lemma wit_not_full : streams_full wit_state = false.
-Proof. unfold streams_full. rewrite wit_length, wit_n_Z. reflexivity. Qed.
-
-Lemma wit_all_cands i : has_stream wit_state {| k_addr := 0; k_conn := cand 0 i |} = true.
+Lemma wit_inv : d_inv wit_state.
 Proof.
-  apply in_keys_has_stream. unfold cand. destruct i as [|i].
-  - apply (wit_keys 0). lia.
-  - replace ((0 + 2 * Z.of_nat (S i)) mod M16) with (2 * (Z.of_nat (S i) mod 32768)) by (unfold M16; lia).
-    apply wit_keys. lia.
-Qed.
-
-Lemma wit_next_free : next_free_conn_id (S (length (d_streams wit_state))) wit_state 0 0 = 2.
-Proof.
-  destruct (next_free_spec (S (length (d_streams wit_state))) wit_state 0 0) as (j & Hj & Hr & _ & Hstop).
-  rewrite Hr. destruct (Nat.eq_dec j (S (length (d_streams wit_state)))) as [->|Hne].
-  - rewrite wit_length. unfold cand. rewrite Nat2Z.inj_succ, wit_n_Z. reflexivity.
-  - rewrite wit_all_cands in Hstop. assert (true = false) by (apply Hstop; lia). discriminate.
+  unfold d_inv. change (d_streams wit_state) with wit_streams.
+  change (d_max_streams wit_state) with 32769. change (d_syns wit_state) with (@nil syn).
+  change (d_chan wit_state) with (@nil Z). change (d_connecting wit_state) with (@nil (Z * list (option connecting))).
+  rewrite wit_length, wit_n_Z. cbn [length]. unfold ACCEPT_QUEUE_MAX_SYNS, ACCEPT_QUEUE_MAX_ACCEPTORS.
+  split; [exact wit_nodup|]. split; [lia|]. split; [lia|]. split; [lia|constructor].
 Qed.
 
 Theorem c12_syn_fresh_needs_bound :
@@ -552,22 +579,12 @@ Theorem c12_syn_fresh_needs_bound :
 Proof.
   exists wit_state, (DoRunOnce [] (ArmControl SynSent)).
   split; [exact wit_inv|]. split; [reflexivity|].
-  rewrite dstep_run_once_eq, (cleanup_no_syns wit_state eq_refl).
-  cbn [fold_left arm_step]. change (d_control wit_state) with [CtlConnect 0 0].
-  destruct (on_control (upd_control wit_state []) (CtlConnect 0 0) SynSent) as [s3 e3] eqn:Eoc.
-  destruct (on_control_connect_syn _ _ _ _ _ wit_not_full Eoc) as (q & rest & ->).
-  change (d_streams (upd_control wit_state [])) with (d_streams wit_state).
-  change (d_next_conn_id (upd_control wit_state [])) with 0.
-  assert (Hnf : next_free_conn_id (S (length (d_streams wit_state))) (upd_control wit_state []) 0 0 = 2).
-  { rewrite <- wit_next_free. generalize (S (length (d_streams wit_state))). intro fuel.
-    generalize 0 at 2 4. induction fuel as [|fuel IH]; intro c; cbn [next_free_conn_id]; [reflexivity|].
-    change (has_stream (upd_control wit_state []) {| k_addr := 0; k_conn := c |})
-      with (has_stream wit_state {| k_addr := 0; k_conn := c |}).
-    destruct (has_stream wit_state _); [apply IH|reflexivity]. }
-  rewrite Hnf. cbn [snd app syn_keys flat_map]. unfold c12_syn_fresh_ok. cbn [forallb].
-  apply andb_false_iff. left. apply negb_false_iff. apply existsb_exists.
-  pose proof (wit_keys 1 ltac:(lia)) as Hin. unfold keys in Hin. apply in_map_iff in Hin.
-  destruct Hin as (en & Hk & Hen). exists (se_key en, se_alive en). split.
-  - unfold dobs_of; cbn [ob_streams]. apply in_map_iff. exists en. auto.
-  - cbn [fst]. rewrite Hk. apply skey_eqb_refl.
+  apply fresh_fails_when_all_even_taken.
+  - exact wit_inv.
+  - reflexivity.
+  - change (d_streams wit_state) with wit_streams. rewrite wit_length. exact wit_n_Z.
+  - exact wit_keys.
+  - reflexivity.
+  - reflexivity.
+  - reflexivity.
 Qed.
